@@ -546,3 +546,92 @@ Fixpoint nt_write (i : Z) (f : nt -> nt) (t : nt) : nt :=
   | NArr j l => if j =? i then f t else NArr j (map (nt_write i f) l)
   | NObj j l => if j =? i then f t else NObj j (map (fun kv => (fst kv, nt_write i f (snd kv))) l)
   end.
+
+(* ------------------------------------------------------------------ key storage *)
+(* A member name is stored somewhere too (lh_entry.k): either in a strdup the entry owns
+   (json_object_object_add) or in memory of the caller that the entry merely points to
+   (json_object_object_add_ex(..., JSON_C_OBJECT_ADD_CONSTANT_KEY), lh_entry.k_is_constant) —
+   memory the caller has promised to keep for the lifetime of THAT object only.
+   [mt] is [nt] with the storage identity of every member name. *)
+Inductive kstore := KOwn (addr : Z) | KBorrowed (buf : Z).
+
+Inductive mt :=
+| MNull
+| MLeaf (addr : Z) (x : leaf)
+| MArr (addr : Z) (l : list mt)
+| MObj (addr : Z) (l : list ((list byte * kstore) * mt)).
+
+Section mt_ind'.
+  Variable P : mt -> Prop.
+  Hypothesis Hnull : P MNull.
+  Hypothesis Hleaf : forall i x, P (MLeaf i x).
+  Hypothesis Harr : forall i l, Forall P l -> P (MArr i l).
+  Hypothesis Hobj : forall i l, Forall (fun e => P (snd e)) l -> P (MObj i l).
+  Fixpoint mt_ind' (t : mt) : P t :=
+    match t with
+    | MNull => Hnull
+    | MLeaf i x => Hleaf i x
+    | MArr i l => Harr i l ((fix go (l : list mt) : Forall P l :=
+                               match l with [] => Forall_nil _ | x :: t => Forall_cons _ (mt_ind' x) (go t) end) l)
+    | MObj i l => Hobj i l ((fix go (l : list ((list byte * kstore) * mt)) : Forall (fun e => P (snd e)) l :=
+                               match l with [] => Forall_nil _ | x :: t => Forall_cons _ (mt_ind' (snd x)) (go t) end) l)
+    end.
+End mt_ind'.
+
+(* forget where the names are stored *)
+Fixpoint mt_nodes (t : mt) : nt :=
+  match t with
+  | MNull => NNull
+  | MLeaf i x => NLeaf i x
+  | MArr i l => NArr i (map mt_nodes l)
+  | MObj i l => NObj i (map (fun e => (fst (fst e), mt_nodes (snd e))) l)
+  end.
+Definition mt_erase (t : mt) : jv := erase (mt_nodes t).
+
+(* the storage of all member names reachable from a root *)
+Fixpoint key_stores (t : mt) : list kstore :=
+  match t with
+  | MArr _ l => flat_map key_stores l
+  | MObj _ l => flat_map (fun e => snd (fst e) :: key_stores (snd e)) l
+  | _ => []
+  end.
+Definition store_addr (s : kstore) : list Z := match s with KOwn a => [a] | KBorrowed _ => [] end.
+Definition store_buf (s : kstore) : list Z := match s with KOwn _ => [] | KBorrowed b => [b] end.
+(* caller buffers a tree depends on *)
+Definition borrowed (t : mt) : list Z := flat_map store_buf (key_stores t).
+(* every address of library-owned memory reachable from a root: nodes and owned names *)
+Fixpoint mem_addrs (t : mt) : list Z :=
+  match t with
+  | MNull => []
+  | MLeaf i _ => [i]
+  | MArr i l => i :: flat_map mem_addrs l
+  | MObj i l => i :: flat_map (fun e => mem_addrs (snd e) ++ store_addr (snd (fst e))) l
+  end.
+
+(* allocation by json_object_deep_copy: as [build]; every member is added with
+   json_object_object_add after its value has been copied, which strdup's the name *)
+Fixpoint mbuild (v : jv) (n : Z) {struct v} : mt * Z :=
+  match v with
+  | JNull => (MNull, n)
+  | JBool b => (MLeaf n (LBool b), n + 1)
+  | JInt z => (MLeaf n (LInt z), n + 1)
+  | JUint z => (MLeaf n (LUint z), n + 1)
+  | JDouble b t => (MLeaf n (LDouble b t), n + 1)
+  | JStr s => (MLeaf n (LStr s), n + 1)
+  | JArr l => let r := thread mbuild l (n + 1) in (MArr n (fst r), snd r)
+  | JObj l => let r := thread (fun kv m => let (x', m1) := mbuild (snd kv) m in (((fst kv, KOwn m1), x'), m1 + 1)) l (n + 1) in
+              (MObj n (fst r), snd r)
+  end.
+Definition mt_copy (t : mt) (n : Z) : mt * Z := mbuild (deep_copy (mt_erase t)) n.
+
+(* the caller overwrites (recycles, frees) its buffer [b]: every name that is merely a pointer
+   into it reads differently from now on; names stored elsewhere do not *)
+Fixpoint kbuf_write (b : Z) (bytes : list byte) (t : mt) : mt :=
+  match t with
+  | MArr i l => MArr i (map (kbuf_write b bytes) l)
+  | MObj i l => MObj i (map (fun e => ((match snd (fst e) with
+                                         | KBorrowed b' => if b' =? b then bytes else fst (fst e)
+                                         | KOwn _ => fst (fst e)
+                                         end, snd (fst e)), kbuf_write b bytes (snd e))) l)
+  | _ => t
+  end.
